@@ -277,6 +277,17 @@ type S struct{}
 //«annM»
 func (s *S) Reset() {}
 
+// the same annotation on a method whose receiver type is spelled through an alias, in parentheses
+type SA = S
+
+//«annM»
+func (s *(SA)) Reset2() {
+	s.Reset() // E-ALIASRECV-BODY
+}
+
+// an unannotated method of an unnamed interface type that shares the method's name
+var Resetter interface{ Reset2() }
+
 type Outer struct {
 	S
 }
@@ -313,6 +324,8 @@ func Edge(s *S, o *Outer) {
 	o.S.Reset() // E-EXPLICIT
 	(*S).Reset(s) // E-MEXPR
 	(*Outer).Reset(o) // E-MEXPR-PROMOTED
+	s.Reset2() // E-ALIASRECV-CALL
+	Resetter.Reset2() // E-IFACE-NAMESAKE
 }
 `
 
@@ -444,6 +457,8 @@ func ZZC03Edge() {
 		{f1, nd.LineOf(c03SrcE1, "E-EXPLICIT"), "TONL03", tM},
 		{f1, nd.LineOf(c03SrcE1, "E-MEXPR"), "TONL03", tM},
 		{f1, nd.LineOf(c03SrcE1, "E-MEXPR-PROMOTED"), "TONL03", tM},
+		{f1, nd.LineOf(c03SrcE1, "E-ALIASRECV-CALL"), "TONL03", tM},
+		// E-ALIASRECV-BODY: nothing (Reset2 carries the same annotation as Reset); E-IFACE-NAMESAKE: nothing
 		// the type used as variadic / element type of a parameter, variable, field, literal, result
 		{"/zz/zzmod/d/e4.go", nd.LineOf(c03SrcE4, "E4-VARIADIC"), "TONL01", tH},
 		{"/zz/zzmod/d/e5.go", nd.LineOf(c03SrcE5, "E5-SLICE-VAR"), "TONL01", tH},
